@@ -65,7 +65,8 @@ def golden_stats(w):
 
 
 def gen_fault_plan(rng, st, prof):
-    kinds = prof.get("fault_kinds", ["crash-api", "crash-fn", "crash-step", "spurious", "apierr-retry"])
+    kinds = prof.get("fault_kinds", ["crash-api", "crash-api", "crash-fn", "crash-fn", "crash-step", "crash-step", "spurious", "spurious",
+                                     "apierr-retry", "apierr-retry", "slow-call"])
     n = rng.choice(prof.get("faults_per_plan", [1, 1, 1, 2, 3]))
     plan = []
     for _ in range(n):
@@ -90,6 +91,9 @@ def gen_fault_plan(rng, st, prof):
             # invocation, the execution goes on - one more way, besides crashes, in which an invocation ends half-way
             plan.append({"kind": "apierr", "call": rng.randrange(1, st["api"] + 1), "err": rng.choice(["400", "403", "404"]),
                          "applied": rng.random() < 0.3})
+        elif k == "slow-call" and st["api"]:
+            # one API call stays in flight for a long time (the client retrying read timeouts) before it is answered
+            plan.append({"kind": "slow", "call": rng.randrange(1, st["api"] + 1), "s": rng.choice([20.0, 61.0, 90.0, 400.0])})
         elif k == "apierr" and st["api"]:
             plan.append({"kind": "apierr", "call": rng.randrange(1, st["api"] + 1),
                          "err": rng.choice(prof.get("err_classes", ["500", "503", "429", "400", "400tok", "403", "404", "conn"])),
